@@ -21,8 +21,22 @@ import (
 	"strconv"
 	"strings"
 	"sync"
+	"syscall"
 	"time"
 )
+
+// vBusy: natively, is the (otherwise idle) process burning CPU? The harness calls it
+// when all its own work is done; a spinning background goroutine keeps one core busy.
+func vBusy() bool {
+	time.Sleep(150 * time.Millisecond)
+	var a, b syscall.Rusage
+	syscall.Getrusage(syscall.RUSAGE_SELF, &a)
+	t0 := time.Now()
+	time.Sleep(300 * time.Millisecond)
+	syscall.Getrusage(syscall.RUSAGE_SELF, &b)
+	cpu := time.Duration(b.Utime.Nano()-a.Utime.Nano()) + time.Duration(b.Stime.Nano()-a.Stime.Nano())
+	return cpu > time.Since(t0)/2
+}
 
 // vGoID identifies the running goroutine (natively parsed from the stack header; under
 // the executor the goroutine's creation index).
@@ -333,6 +347,16 @@ func init() {
 	}
 	rtIntrinsics["vIteStr"] = func(c *PathCtx, fr *frame, args []Value) Value {
 		return tIte(args[0].(*Term), args[1].(*Term), args[2].(*Term))
+	}
+	// vBusy(): after letting every other goroutine run to quiescence, is some goroutine
+	// spinning (see the busy-loop detection in select)?
+	rtIntrinsics["vBusy"] = func(c *PathCtx, fr *frame, args []Value) Value {
+		c.quiesce()
+		if b, ok := c.side["busy"].(string); ok && b != "" {
+			c.res.Reached["busy-goroutine:"+b]++
+			return tTrue
+		}
+		return tFalse
 	}
 	rtIntrinsics["vGoID"] = func(c *PathCtx, fr *frame, args []Value) Value {
 		return mkBV(64, uint64(c.cur.id))
